@@ -3,7 +3,9 @@
    {"op":"world","target":T,"procs":[{pid,ppid,ctime,long,guess,tids:[[t,stale]],fds:[[fd,kind]],stale}]}
    {"op":"run","method":m,"attrs":[..],"plan":{"switch":[[k,"zombie"|"gone"]],"deny":[[k,"EACCES"|"EPERM"]]},
     "impl":{"kind":"ok","shape":..}|{"kind":"exc","exc":cls,"pid":p|null}}
-     → {"model":outcome,"trace":[..],"spec":{"ok":b,"ok_any":b,"gone_nsp":b|null}}
+     → {"model":outcome,"trace":[..],"spec":{"ok":b,"ok_any":b,"gone_nsp":b|null,"cause":b|null}}
+   ("cause_k1":n on a run line = the number of accesses the implementation made; then `cause` = Spec.Cause over
+    accesses 0..n-1 decided on the implementation's outcome. method "as_dict_all" = as_dict() with `attrs` = all names)
    {"op":"hist","methods":[m,..],"plan":{..},"gone_from":k0|null,"impls":[outcome,..]}   (several calls on ONE object)
      → {"models":[outcome,..],"starts":[k,..],"trace":[..],"spec":{"ok":[b,..],"gone_answer":[b|null,..]}}
    `gone_answer[i]` = Spec.GoneAnswer decided on the implementation's i-th outcome when that call started at a
@@ -156,6 +158,9 @@ def program (w : World) (m : String) (attrs : List String) : Option (M Val) :=
   let o := w.obj
   if m == "as_dict" then
     some (do let (n, ad) ← Fe.asDict cfg o attrs; pure (.asdict n ad))
+  else if m == "as_dict_all" then
+    -- as_dict() / as_dict(attrs=None): `attrs` = the names of `_as_dict_attrnames` in the set's iteration order
+    some (do let (n, ad) ← Fe.asDictAll cfg o attrs; pure (.asdict n ad))
   else if m == "process_iter" then some (Fe.processIter cfg attrs)
   else Fe.method cfg o m
 
@@ -222,6 +227,8 @@ def handle (w : Option World) (j : Json) : R (Option World × Json) := do
                  | .error _ => pure [])
     let (ws, deny) ← field j "plan" >>= parsePlan
     let impl ← field j "impl" >>= parseImpl
+    -- "cause_k1": number of OS accesses the IMPLEMENTATION performed (given only for the property's plan shapes)
+    let causeK1 ← optF asNat j "cause_k1"
     match program w m attrs with
     | none => .error s!"method {m} is not modelled"
     | some prog =>
@@ -240,8 +247,14 @@ def handle (w : Option World) (j : Json) : R (Option World × Json) := do
           | none => Json.bool false
           | some o => Json.bool (decide (Spec.IsNSP w.target o))
         else Json.null
+      -- Spec.Cause decided on the IMPLEMENTATION's outcome over the accesses it performed
+      let cause : Json := match causeK1, impl with
+        | some k1, some o => Json.bool (decide (Spec.Cause ws deny 0 k1 o))
+        | some _, none => Json.bool false
+        | none, _ => Json.null
       return (some w, jObj [("model", jOutcome (out.map canonVal)),
                             ("trace", jList Json.str (st.trace.reverse.map accStr)),
-                            ("spec", jObj [("ok", Json.bool specOk), ("ok_any", Json.bool specAny), ("gone_nsp", goneNsp)])])
+                            ("spec", jObj [("ok", Json.bool specOk), ("ok_any", Json.bool specAny), ("gone_nsp", goneNsp),
+                                           ("cause", cause)])])
 
 def main : IO Unit := Proto.run (none : Option World) (total handle)
